@@ -6,6 +6,8 @@ From Frugal Require Import Bytes Wire Skip Values Desc Spec Encode Decode Checks
 From Frugal.gen Require Import Params.
 From Frugal.proofs Require Import GenDecParams GenDepth Corollaries.
 From Frugal.props Require Import Examples.
+From Frugal Require Import DisciplineChecks.
+From Frugal.proofs Require Import GenDepthArgs.
 Import ListNotations.
 
 (* the decoder recurses on its depth budget: at budget 0 it stops *)
@@ -49,3 +51,8 @@ Proof. split; [eexists; eexists|]; vm_compute; reflexivity. Qed.
    for what the translator read from the sources of this run *)
 Theorem C15_side_conditions : dec_params_ok = true /\ depth_ok = true.
 Proof. split; [exact dec_params_ok_holds | exact depth_ok_holds]. Qed.
+
+(* structural facts about the Go source which the hand-written model builds in (DisciplineChecks.v),
+   read from the source by the translator and re-proved on every run *)
+Theorem C15_model_assumptions : depth_args_ok = true.
+Proof. exact depth_args_ok_holds. Qed.
